@@ -88,6 +88,11 @@ CYCLE_SCRIPTS['funrec'] = ('(declare-const a Int)'
 CYCLE_SCRIPTS['letshadow'] = ('(declare-const x Int)(declare-fun f (Int) Int)'
                               '(assert (let ((x (+ x 1))) (> (f x) 0)))'
                               '(check-sat)')
+# datatype constants (nullary constructors) next to a variable of the datatype
+CYCLE_SCRIPTS['dtconst'] = ('(declare-datatypes ((Color 0)) (((red) (green))))'
+                            '(declare-const x Color)'
+                            '(declare-fun p (Color) Bool)'
+                            '(assert (p x))(assert (p red))(check-sat)')
 DEPTH3 = ['elim3', 'eq0', 'recfun', 'defconst']   # small: also 3-step chains
 
 
